@@ -368,14 +368,16 @@ EXTRA = {
            "text of every shape is compared with them (30 784 shapes, drift reported in evidence: 0 on the current tree). Bracket "
            "nests also come as one kind of bracket 16 / 40 / 64 deep around texts that refer to builtins and globals (name "
            "resolution through every enclosing scope must stay bounded). A hang is confirmed by running the text alone with a "
-           "long deadline; after 12 confirmed hangs the rest of a family is skipped (the verdict is settled).",
+           "long deadline; after 12 confirmed hangs the rest of a family is skipped (the verdict is settled)."
+           " A scanner that does not return on a text of some shape (where the model ends on every text) is reported as a violation; the comparison resumes behind the text (per-text deadline, confirmation alone, at most 6 hangs).",
     "C02": " A strided sample of the deterministic families of C04 / C05 / C07 (scope skeletons as function bodies - all of "
            "those with a function inside a block -, loop nests, return in operand positions) and an alias matrix (11 ways of "
            "obtaining an array from existing ones x 5 ways of changing the result, maps through variables / containers / calls; "
            "all originals observed) are included; ill-formed variants also place the return inside a filter written in a "
            "function or closure. A part of the programs is also replayed instruction by instruction: the real VM in lock step "
            "with the machine specification spec/VM.tla on the code the real compiler emitted, and the machine's outcome on that "
-           "code against RefSem on the source (spec/VMRun.tla) - a per-program translation validation of the compiler inside TLC.",
+           "code against RefSem on the source (spec/VMRun.tla) - a per-program translation validation of the compiler inside TLC."
+           " Ill-formed variants include assignments whose target has nowhere to store (RefSem's static rule 'lvalue').",
     "C03": " Every enumerated tree is also written in 13 syntactic positions (match arm as expression / block / after an "
            "alternation pattern, if and else bodies, array element, call argument, function tail, return value, let initialiser, "
            "map value, loop-body assignment, closure body) in both renderings, which must behave alike; a strided part is "
@@ -390,53 +392,71 @@ EXTRA = {
            "the documented truthiness table (all chains of length 1-2, sampled beyond); loop nests also come with one label on "
            "every level (a labelled break / continue names the nearest enclosing loop so labelled); if / match with 9 kinds of "
            "branch bodies (value, let, empty, statements, assignment, nested if, observation only, nested block) in 5 value "
-           "positions (array element, call argument, operand, let initialiser, map value).",
+           "positions (array element, call argument, operand, let initialiser, map value)."
+           " A further table crosses scrutinees of one kind (integers, bytes, chars, floats incl. NaN / infinities, strings, booleans, null) with range / literal patterns of another around one pair of bounds: RefSem settles 'contains' by the relational operators where they are defined (same kind, integer / float mixes), settles a byte against an integer range (or the reverse) far outside the bounds as not contained, and leaves the rest open; true / false in arms of their own do not make a match exhaustive.",
     "C06": " Values of kinds the table does not list (error object, builtin function, closure, named function, file handle) in "
            "every position; every && / || expression over 17 atoms printed at top level and inside a filter action of the same "
-           "run (578 expressions) must print alike.",
+           "run (578 expressions) must print alike."
+           " The table's values also come in their other written forms directly in each position (the NUL character / byte as a literal holding the raw character, comparisons and negated comparisons incl. the unordered ones with NaN, double negation: 1 196 settled cases). With the output not suppressed, a falsey value never selects the packet - neither as the pattern of a filter without an action (only `true` selects there) nor in front of an action.",
     "C07": " Further families: every block-carrying construct in statement position x every kind of last statement of its block "
            "(13 x 10, at top level and inside a function); $n outside packet processing; loop nests with one label on every "
            "level. The same executions are replayed in lock step against the machine specification spec/VM.tla by "
            "spec/VMRun.tla (one TLC state per executed instruction): a stack height that differs from what the instruction's "
            "meaning gives is reported with the instruction after which it arose. End to end also in filter mode: nine kinds of "
-           "filter programs over 3 000 (12 000) packets must neither overflow nor lose count.",
+           "filter programs over 3 000 (12 000) packets must neither overflow nor lose count."
+           " Assignments whose target has nowhere to store (a literal, a call, a container / function literal, an if / match value, $n, a predefined name; 18 targets x 6 places x top level / function / filter action) must be refused by the front end (RefSem static rule 'lvalue') - they used to compile into two pushes and one pop. Statements whose operand counts sit at the edge of one instruction (255 / 256 call arguments, 255-257 literal elements) inside loops. Filter mode also with patterns that are not booleans (the reported-packet path has to release the action's locals).",
     "C08": " In-process families include every string over the characters of the format mini-language up to length 4 (5) as "
            "format of format / eprint. The end-to-end slice includes a matrix of 10 places a filter statement can be written "
            "(top level, function, uncalled function, block, loop, if, nested function, closure, match arm, filter action) x 23 "
            "patterns / actions, and structure-aware random frames cut at every layer boundary through five filter-mode programs "
            "that print, descend into and write every layer. Spec level: TLC runs the bytecode machine spec/VM.tla by itself "
            "(spec/MC_VM.tla, deadlock checking on) on the code the real compiler emitted for a part of the programs and checks "
-           "NeverStuck, NoUnderflow, FramesNested, EndsBalanced and FetchAligned in every reachable state.",
+           "NeverStuck, NoUnderflow, FramesNested, EndsBalanced and FetchAligned in every reachable state."
+           " The TLC-enumerated calls include 13 builtins that are not pure (rand, strerror, get_errno, read / write / read_line / read_to_string / pcap_* with arguments that are no file, print, eprintln) - their results are not prescribed, but no argument may crash them; programs sitting exactly on, under and over the limits of locals, call arguments and captured variables.",
     "C09": " Every operator is also applied to one stored value on both sides (variable, array slot, argument) for every "
-           "operand of the table: an operator must see values, not where they live.",
+           "operand of the table: an operator must see values, not where they live."
+           " Doubles far outside the dyadic model (1e-300, subnormals, 2.2e-16, 1e300 ...) as operands of every operator with nine partners in both orders: the model knows only that they are finite and not zero - so nothing divides by zero, arithmetic yields a float, bitwise operators refuse them. + on arrays builds a new array whatever the operands (an empty one, the same one twice): changing the result or an operand afterwards does not show through.",
     "C10": " The relation itself: all ordered pairs of 28 keys of every kind through one fixed history (write under k1; observe "
            "k1 == k2, contains, the value insert replaces, len, get, index) validated by spec/MapEqTrace.tla: the map must agree "
-           "with whatever == says about the pair - this covers pairs whose equality the documentation leaves open.",
+           "with whatever == says about the pair - this covers pairs whose equality the documentation leaves open."
+           " The key domain of the relation includes NaN (alone and inside arrays) and, for every key, the pair made of one object under two names; a write under an equal key replaces the stored value even when the new value equals the old one (1 / 1.0, 0.0 / -0.0, a byte / an integer, two arrays with equal contents one of which is changed afterwards) through both ways of writing.",
     "C11": " Law programs cover round(x, n) for every accepted precision (values with at most n binary places are their own "
            "rounding; non-finite values are left alone), sorting of neighbouring integers far from zero, and join with "
-           "delimiters that also occur as elements.",
+           "delimiters that also occur as elements."
+           " Container contracts: numerically equal keys of different kinds through insert / get / contains with 0 / 3 / 40 other entries; first / last / rest / len / sort / join / str / contains / get leave the array they are handed as it was (observed through an alias).",
     "C13": " String, character and byte literals spanning lines include ones that end or start with a line break and ones made "
-           "of line breaks only.",
+           "of line breaks only."
+           " Expressions written over several lines (12 ways of placing the failing construct on a later line than the statement's first: operands, arguments, elements, map values, match arms and scrutinees, if / else branches, closure bodies, nested): the renderer marks, per node, the token the failing operation is compiled from and RefSem reports that line. A match whose scrutinee cannot be ordered against a range pattern fails on the arm's line (RefSem: PatHolds 'e'). End to end: failures that exist only while a packet is processed ($n beyond the deepest layer, a header field assigned a value of the wrong kind) in actions and in functions called from actions; scripts of 65 534 - 70 003 (thorough 200 001) lines.",
     "C14": " Forward-jump distance scenarios (if / while exit [thorough: match arm]) just under and over 65535 bytes run in "
            "both tiers. The traced executions are also replayed in lock step against spec/VM.tla (spec/VMRun.tla): every "
            "operand-bearing instruction must have the effect its encoded operand prescribes (ip, opcode, function, digest of "
            "the top of stack after each instruction). Opcodes are identified by the names the real code gives them, measured "
            "together with the widths. The codec law is also established by Apalache for every operand value and every operand "
-           "layout at once (spec/BytecodeInd.tla, symbolic integers).",
+           "layout at once (spec/BytecodeInd.tla, symbolic integers)."
+           " Every kind of jump (if / else, while, loop + break, continue, labelled break / continue, match, && / ||) behind a stretch of straight-line code just short of / just beyond the reach of a 16-bit target, and the stretch inside the loop (only the way out is out of reach); closures called where they are written with 255 / 256 captured variables; 65 536 / 65 537 global variables.",
     "C17": " Two-assignment sequences pair a field of one layer with a structure-selecting field re-assigned the value it "
-           "already has (structure unchanged, so every later read stays decided), in both orders.",
+           "already has (structure unchanged, so every later read stays decided), in both orders."
+           " Frames the fixed stacks do not have: two 802.1Q tags in a row (assignments to the inner tag and below it), IPv4 / TCP headers whose length field is below the minimum (an assignment still patches exactly its bits).",
     "C19": " Every 4th history reads the same bytes as a stream on standard input (pcap_stream(stdin)) through the binary; the "
            "record header pcap_write writes is compared too. NothingLost is also discharged as an inductive invariant by "
            "Apalache (spec/PcapFileInd.tla, the typed form of the machine): base case and inductive step for every file of up "
            "to 5 records of arbitrary content, i.e. for call histories of every length.",
-    "C20": " A third of the streams have a snaplen equal to the longest captured length.",
+    "C20": " A third of the streams have a snaplen equal to the longest captured length."
+           " A fifth of the programs end in a filter whose pattern is not a boolean (NP % m, cnt): a falsey value - or any value without an action - is reported (event FAULT in spec/FilterMode.tla) and selects nothing, and the packets after it keep their numbers.",
     "C21": " Writes are texts, single bytes (every value) and byte arrays; after flush(f) a second handle must see everything "
            "written so far. The machine's invariant (results are a prefix of the content, each byte once; short only at the end; "
            "a call is answered only from bytes that have arrived) is also discharged as an inductive invariant by Apalache "
-           "(spec/FileIOInd.tla): contents of up to 8 arbitrary bytes, every delivery schedule, call histories of every length.",
+           "(spec/FileIOInd.tla): contents of up to 8 arbitrary bytes, every delivery schedule, call histories of every length."
+           " Programs end with their last statement, with exit(n) or with a runtime error: what was written is in the file in every case. Text asked of input that is not well-formed UTF-8 (read_line / read_to_string on binary content, on a sequence cut short at the end) must be an error object, never an altered text (WellFormedUtf8 in spec/FileIOFn.tla).",
     "C23": " Rejected lines include ones the compiler rejects after entering nested scopes and making definitions there (block, "
-           "if, loop, named function body, anonymous function); later lines read names from nested scopes.",
-    "C24": " Programs start with 0-4 comment / blank lines (under the shebang line in shebang mode).",
+           "if, loop, named function body, anonymous function); later lines read names from nested scopes."
+           " What every accepted line prints is compared with what the same line prints as the last line of a script made of the lines accepted before it (both recorded, spec/ReplTrace.tla 'output'), including lines that are just a value (falsey ones too); sessions define functions whose bodies are the same text under parameter lists of different length and call them.",
+    "C24": " Programs start with 0-4 comment / blank lines (under the shebang line in shebang mode)."
+           " A quarter of the texts have CRLF line ends; string literals spanning lines (the line end inside the quotes is part of the string).",
+    "C12": " Print scripts include texts with a line break followed by 700-5 000 characters without one (the standard output is line buffered: the tail goes out in a write of its own).",
+    "C16": " The seven properties of the pcap object against the 24 bytes of the global header (spec/PcapHdrTrace.tla: byte order from the magic number, thiszone signed, the others unsigned; boundary and random values of every field).",
+    "C18": " Addresses of an IPv4 header that carries options.",
+    "C22": " The operation table has 56 entries: content that stops being pcap behind a valid global header (damaged first record; damage after a good record: the good record is delivered, every read at and after the damage fails), a pcap stream on a full standard output.",
 }
 
 
